@@ -26,7 +26,7 @@ def histories(ck, n, maxhist=7, want_reject=0.6):
     sel = rej[:k] + oth[:n - k]
     # directed additions: a rejected append as the very last / very first mutation, conflicting append right after an import
     def att(ms):
-        st = {"s": {k: "" for k in KEYS}, "ch": {k: set() for k in KEYS}}
+        st = {"s": {k: "" for k in KEYS}, "ch": {k: set() for k in KEYS}, "fill": 0}
         out, states = [], []
         for m in ms:
             ok = True
@@ -37,26 +37,36 @@ def histories(ck, n, maxhist=7, want_reject=0.6):
                 else: st["ch"][m["k"]].add(m["c"])
             elif m["t"] == "rem": st["ch"][m["k"]].discard(m["c"])
             elif m["t"] == "imp":
-                st["s"][m["k"]] = m["v"]; st["ch"][m["k"]].add(m["c"])
+                st["s"][m["k"]] = m["v"]
+                if m["c"]:
+                    st["ch"][m["k"]].add(m["c"])
+                st["fill"] += m.get("fill", 0)
             elif m["t"] == "rmk":
                 st["s"][m["k"]] = ""; st["ch"][m["k"]] = set()
             out.append({"m": m, "ok": ok})
-            states.append({"s": dict(st["s"]), "ch": {k: sorted(v) for k, v in st["ch"].items()}})
+            states.append({"s": dict(st["s"]), "ch": {k: sorted(v) for k, v in st["ch"].items()}, "fill": st["fill"]})
         return {"att": out, "states": states}
     A = lambda k, c: {"t": "app", "k": k, "c": c}
     sel.append(att([{"t": "put", "k": "k", "v": "1"}, A("p", "c"), A("p", "c"), {"t": "put", "k": "k", "v": "2"}]))
     sel.append(att([A("p", "c"), A("p", "c")]))
     sel.append(att([{"t": "imp", "k": "p", "v": "1", "c": "c"}, A("p", "c"), {"t": "rmk", "k": "p"}, A("p", "c"), A("p", "d"), A("p", "d")]))
+    # imports over a key that holds a value: empty transfer, lease-only transfer, children-only transfer
+    sel.append(att([{"t": "put", "k": "k", "v": "1"}, {"t": "imp", "k": "k", "v": "", "c": ""}, {"t": "put", "k": "p", "v": "2"},
+                    {"t": "imp", "k": "p", "v": "", "c": "", "lease": True}, A("p", "c")]))
+    sel.append(att([{"t": "put", "k": "k", "v": "1"}, {"t": "imp", "k": "k", "v": "", "c": "d"}, A("k", "d")]))
+    # one Import call carrying many keys (one acknowledged mutation), between ordinary ones
+    sel.append(att([{"t": "put", "k": "k", "v": "1"}, {"t": "imp", "k": "p", "v": "2", "c": "c", "fill": 150, "id": "a"}, A("p", "c"), {"t": "put", "k": "k", "v": "2"}]))
+    sel.append(att([{"t": "imp", "k": "k", "v": "1", "c": "", "fill": 70, "id": "b"}, {"t": "imp", "k": "p", "v": "1", "c": "d", "fill": 66, "id": "c"}]))
     return sel
 
 
 def norm_state(st):
-    return {"simple": {k: st["s"].get(k, "") for k in KEYS}, "kids": {k: sorted(st["ch"].get(k, [])) for k in KEYS}}
+    return {"simple": {k: st["s"].get(k, "") for k in KEYS}, "kids": {k: sorted(st["ch"].get(k, [])) for k in KEYS}, "fill": st.get("fill", 0)}
 
 
 def prefix_states(h):
     """state after 0..n attempted mutations"""
-    return [{"simple": {k: "" for k in KEYS}, "kids": {k: [] for k in KEYS}}] + [norm_state(s) for s in h["states"]]
+    return [{"simple": {k: "" for k in KEYS}, "kids": {k: [] for k in KEYS}, "fill": 0}] + [norm_state(s) for s in h["states"]]
 
 
 def record(ck, binary, h, stop=False, cycles=None, pad=None):
